@@ -82,11 +82,12 @@ static struct {
 	int received;
 } evs[MAXEV];
 static int nevs;
+static bool ev_overflow; /* more events than we can remember: event oracles are not judged in this run */
 static uint64_t max_inv_received;
 static uint32_t next_ev_id;
 
 /* per-pass ISR records for the final-check clause */
-#define MAXREC 64
+#define MAXREC 4096
 static struct {
 	int target;
 	bool accepted;
@@ -95,6 +96,7 @@ static struct {
 	int pass;
 } recs[MAXREC];
 static int nrecs;
+static bool rec_overflow; /* more requests than we can remember: timing clauses are not judged any more in this run */
 static int cur_pass;
 static int64_t cur_isr_p0 = -1;
 static int isr_fired, isr_in_pass_after_final;
@@ -130,11 +132,14 @@ static struct {
 	bool fresh, withdrawn;
 } reqs[MAXREQ];
 static int nreqs;
+static bool req_overflow;
 static uint64_t last_idle_ev; /* event count at the start of the last pass that found nothing pending and saw no request */
 static int req_open(int f)
 {
-	if (nreqs >= MAXREQ)
+	if (nreqs >= MAXREQ) {
+		req_overflow = true;
 		return -1;
+	}
 	reqs[nreqs].target = f;
 	reqs[nreqs].inv = ++ev_clock;
 	reqs[nreqs].ret = 0;
@@ -251,6 +256,8 @@ static void got_event(event_t *e)
 		if (evs[i].id == e->id)
 			k = i;
 	vh_sb_add(&evlog, "H:ev%u ", e->id);
+	if (ev_overflow)
+		return;
 	if (k < 0 || e->check != ~e->id) {
 		viol("event", "received-corrupt-event", "handler received an event with id %u check %08x that was never sent intact", e->id, e->check);
 		return;
@@ -307,6 +314,8 @@ static void post_wakeup(int f)
 			pending_since_ev[f] = ev_clock;
 	} else
 		stat_atomic_refused++;
+	if (nrecs >= MAXREC)
+		rec_overflow = true;
 	if (nrecs < MAXREC) {
 		recs[nrecs].target = f;
 		recs[nrecs].accepted = ok;
@@ -327,6 +336,8 @@ static void post_event(void)
 	}
 	uint32_t id = next_ev_id++;
 	int k = nevs < MAXEV ? nevs++ : -1;
+	if (k < 0)
+		ev_overflow = true;
 	if (k >= 0) {
 		evs[k].id = id;
 		evs[k].inv = inv;
@@ -357,6 +368,8 @@ static void post_event(void)
 			pending_since_ev[FH] = ev_clock;
 	} else
 		stat_atomic_refused++;
+	if (nrecs >= MAXREC)
+		rec_overflow = true;
 	if (nrecs < MAXREC) {
 		recs[nrecs].target = FH;
 		recs[nrecs].accepted = ok;
@@ -482,7 +495,7 @@ static void do_pass(void)
 	(void)self_yielded;
 
 	/* C03(b): requests that completed before the final check */
-	bool after_final = false;
+	bool after_final = rec_overflow;
 	for (int i = first_rec; i < nrecs; i++) {
 		if (!recs[i].accepted)
 			continue;
@@ -618,6 +631,8 @@ static void setup(const scenario_t *sc)
 	fibre_init(&fibP, body_P);
 	fibre_init(&fibQ, body_Q);
 	nreqs = 0;
+	req_overflow = false;
+	ev_overflow = false;
 	last_idle_ev = 0;
 	fibre_eventq_init(&evH, body_H, evbuf, sizeof(evbuf), sizeof(evbuf[0]));
 	fibp[FY] = &fibY;
@@ -639,6 +654,7 @@ static void setup(const scenario_t *sc)
 	max_inv_received = 0;
 	next_ev_id = 1;
 	nrecs = 0;
+	rec_overflow = false;
 	cur_pass = 0;
 	cur_isr_p0 = -1;
 	isr_fired = isr_in_pass_after_final = 0;
@@ -705,7 +721,7 @@ static uint64_t run(const scenario_t *sc, const char *script)
 			     fname[f], seen[f], required[f]);
 			return pts;
 		}
-	for (int i = 0; i < nevs; i++)
+	for (int i = 0; i < nevs && !ev_overflow; i++)
 		if (evs[i].accepted && evs[i].received != 1) {
 			viol("event", evs[i].received ? "event-received-twice" : "event-lost",
 			     "event %u: fibre_eventq_send returned true, it was received %d times and the scheduler is idle", evs[i].id, evs[i].received);
@@ -729,7 +745,7 @@ static uint64_t run(const scenario_t *sc, const char *script)
 
 static void check_arrival_order(void)
 {
-	if (failed)
+	if (failed || req_overflow)
 		return;
 	for (int j = 0; j < nreqs; j++) {
 		if (!reqs[j].ret || reqs[j].withdrawn || !reqs[j].fresh || !reqs[j].served)
@@ -992,7 +1008,7 @@ static void co_runs(void)
 				viol("wakeup-lost", k2, "fibre %c last ran at work counter %u, a wake-up at %u was accepted, scheduler idle", fname[f], seen[f],
 				     required[f]);
 			}
-		for (int i = 0; i < nevs && !failed; i++)
+		for (int i = 0; i < nevs && !failed && !ev_overflow; i++)
 			if (evs[i].accepted && evs[i].received != 1)
 				viol("event", evs[i].received ? "event-received-twice" : "event-lost",
 				     "event %u: fibre_eventq_send returned true, received %d times, scheduler idle", evs[i].id, evs[i].received);
